@@ -1,10 +1,86 @@
-(* C02, part c02prims - statements only (proofs in C02_Prims/). *)
+(* C02, part c02prims - statements only (proofs in C02_Prims/): the Deserializer primitives and the stream Read
+   helpers are total, never consume more than supplied, and their cost (make sizes + loop iterations) follows the data
+   actually present. Model = code after the fix: commits 2366906 (D02a), 93eaa3d (D01c), 251eda6 (D02c). *)
 From Coq Require Import ZArith NArith List.
-From Verif.C02_Prims Require Import Model Stream ProofsLE.
+From Verif.C02_Prims Require Import Model Stream ProofsLE ProofsPrims ProofsStream ProofsPairs.
 Import ListNotations.
 
-Theorem C02_le_decode_total_in_range : forall k bs,
+(* Every primitive, from every state (sticky error or not), on every input: no panic, offset + remaining is
+   preserved (so the offset never passes the end of the input), and the cost is at most the bytes this call consumed
+   + 64. Guards: the length-prefix type is a known one and item callbacks keep their contract (wf_op); for the cost,
+   successful items consume at least one byte (guarded; otherwise C02_refuted_zero_size_items). *)
+Theorem C02_prim_total_bounded : forall s o, wf_op o ->
+  exists s' out c, dstep s o = SOk s' out c /\ total s' = total s /\ (off s <= off s')%nat /\
+                   (guarded o -> (c <= N.of_nat (off s' - off s) + 64)%N).
+Proof. exact dstep_safe. Qed.
+
+(* Every program of primitives on every byte string: no panic and Done() reports at most len(input). *)
+Theorem C02_prims_no_panic_consumed : forall ops b, wf_prog ops ->
+  r_panic (drun (dinit b) ops) = false /\ (off (r_state (drun (dinit b) ops)) <= length b)%nat.
+Proof. exact drun_consumed. Qed.
+
+(* ... and allocates/iterates at most len(input) + 64 per primitive. *)
+Theorem C02_prims_cost : forall ops b, wf_prog ops -> guarded_prog ops ->
+  (r_cost (drun (dinit b) ops) <= N.of_nat (length b) + 64 * N.of_nat (length ops))%N.
+Proof. exact drun_cost. Qed.
+
+(* non-vacuity: a program with every kind of primitive satisfies both guards *)
+Example C02_guards_inhabited :
+  let ops := [DBool; DNum I32; DVar L32 0 10; DString L8 1 0; DU256; DTime; DPayloadLen;
+              DSeq true L16 (item_run IVar) (mkRules 0 3 VLexNoDup); DSeq false L64 (item_run (IFixed 2)) (mkRules 0 0 VNone);
+              DConsumedAll] in
+  wf_prog ops /\ guarded_prog ops.
+Proof.
+  split; repeat constructor; try discriminate; try apply item_run_ok; apply item_run_consuming; discriminate.
+Qed.
+
+(* D02d (known finding): zero-size items iterate prefix-many times: 2 bytes of input, 65535 iterations. *)
+Theorem C02_refuted_zero_size_items :
+  wf_op d02d_op /\ r_cost (drun (dinit d02d_input) [d02d_op]) = 65535%N /\
+  ~ (r_cost (drun (dinit d02d_input) [d02d_op]) <= N.of_nat (length d02d_input) + 64 * 1)%N.
+Proof. exact refuted_zero_size_items. Qed.
+
+(* D02a on the pinned code: 6-byte input, 1 GiB handed to make; after the fix cost 0 and the length error. *)
+Theorem C02_refuted_pinned_var_alloc :
+  dvar_cost_pinned L32 (dinit [255; 255; 255; 63; 1; 2]%N) = 1073741823%N /\
+  (exists s' o c, dstep (dinit [255; 255; 255; 63; 1; 2]%N) (DVar L32 0 10) = SOk s' o c /\ c = 0%N /\ derr s' = Some ELenMax).
+Proof. exact refuted_pinned_var_alloc. Qed.
+
+(* io.ReadFull over every reader script (faults included): what was obtained is a prefix of the data, the reader
+   advanced by exactly that, never more than requested. *)
+Theorem C02_read_full_prefix : forall es want d got r e,
+  read_full want d es = (got, r, e) ->
+  got = firstn (length got) d /\ rdata r = skipn (length got) d /\ (length got <= want)%nat /\
+  (e = RNil <-> length got = want).
+Proof. exact read_full_spec. Qed.
+
+(* stream.ReadBytes for every length (negative and 2^63-1 included) and every reader script: no panic, consumes a
+   prefix n <= available, cost <= n + 4096 (allocation follows the data received), result = those n = len bytes. *)
+Theorem C02_stream_read_bytes_total_bounded : forall len r x r' c,
+  read_bytes len r = (x, r', c) ->
+  x <> Panic /\
+  exists n, (n <= length (rdata r))%nat /\ rdata r' = skipn n (rdata r) /\ (c <= N.of_nat n + 4096)%N /\
+            (forall bs, x = Ok bs -> bs = firstn n (rdata r) /\ Z.of_nat (length bs) = len).
+Proof. exact read_bytes_total. Qed.
+
+(* D02c on the pinned code: negative size panics, and make gets the prefix whatever the data. *)
+Theorem C02_refuted_pinned_stream_negative : forall r, fst (read_bytes_pinned (-1) r) = Panic.
+Proof. exact refuted_pinned_negative_size. Qed.
+Theorem C02_refuted_pinned_stream_alloc : forall len r, (0 <= len)%Z -> snd (read_bytes_pinned len r) = len.
+Proof. exact refuted_pinned_alloc_follows_prefix. Qed.
+
+(* decoded numbers are always inside their kind's range *)
+Theorem C02_le_decode_in_range : forall k bs,
   Forall (fun b => (b < 256)%N) bs -> length bs = nk_size k -> in_range k (num_of_bytes k bs).
 Proof. exact num_of_bytes_range. Qed.
 
-Print Assumptions C02_le_decode_total_in_range.
+Print Assumptions C02_prim_total_bounded.
+Print Assumptions C02_prims_no_panic_consumed.
+Print Assumptions C02_prims_cost.
+Print Assumptions C02_refuted_zero_size_items.
+Print Assumptions C02_refuted_pinned_var_alloc.
+Print Assumptions C02_read_full_prefix.
+Print Assumptions C02_stream_read_bytes_total_bounded.
+Print Assumptions C02_refuted_pinned_stream_negative.
+Print Assumptions C02_refuted_pinned_stream_alloc.
+Print Assumptions C02_le_decode_in_range.
